@@ -87,6 +87,9 @@ pub struct Gen<'a> {
     next_token: usize,
     pub lines: Vec<GLine>,
     pub special_names: bool,
+    /// when set, every section is about this path (as in `git log -p -- path`, or the same file
+    /// changed in consecutive commits)
+    pub forced_name: Option<String>,
 }
 
 const EXTS: &[&str] = &["rs", "py", "txt", "c", "js", "md", "toml", "sh", ""];
@@ -98,7 +101,7 @@ const MB_WORDS: &[&str] = &["héllo", "naïve", "日本", "语言", "λ", "→",
 
 impl<'a> Gen<'a> {
     pub fn new(rng: &'a mut Rng) -> Self {
-        Gen { rng, next_token: 0, lines: Vec::new(), special_names: true }
+        Gen { rng, next_token: 0, lines: Vec::new(), special_names: true, forced_name: None }
     }
 
     fn token(&mut self) -> String {
@@ -145,6 +148,11 @@ impl<'a> Gen<'a> {
     }
 
     fn fname(&mut self, section: usize) -> String {
+        if section < 1000 {
+            if let Some(n) = &self.forced_name {
+                return n.clone();
+            }
+        }
         let dir = *self.rng.pick(&["", "src/", "a/b/", "lib/x/"]);
         if self.special_names && self.rng.chance(1, 3) {
             // names whose language is chosen by the whole file name, next to plain names with the same extension
@@ -420,6 +428,11 @@ pub fn generate(rng: &mut Rng, p: &GenParams) -> Vec<GLine> {
     if p.with_commit_preamble && p.flavor != Flavor::DiffU {
         g.commit_preamble();
     }
+    let same_path = p.sections.len() > 1 && g.rng.chance(1, 6);
+    if same_path {
+        let n = g.fname(0);
+        g.forced_name = Some(n);
+    }
     for (i, k) in p.sections.iter().enumerate() {
         g.section(p, *k, i);
     }
@@ -429,7 +442,12 @@ pub fn generate(rng: &mut Rng, p: &GenParams) -> Vec<GLine> {
 /// One section on its own, with a chosen first token number (so that sections
 /// generated separately and concatenated have unique tokens).
 pub fn generate_section(rng: &mut Rng, p: &GenParams, kind: SectionKind, section: usize, first_token: usize) -> Vec<GLine> {
+    generate_section_named(rng, p, kind, section, first_token, None)
+}
+
+pub fn generate_section_named(rng: &mut Rng, p: &GenParams, kind: SectionKind, section: usize, first_token: usize, name: Option<String>) -> Vec<GLine> {
     let mut g = Gen::new(rng);
+    g.forced_name = name;
     g.next_token = first_token;
     g.section(p, kind, section);
     g.lines
